@@ -36,6 +36,8 @@ def run(tier):
         chk.clause('C03.pivrow', 'perm_r records the row that is moved to the pivot position (*pivrow and pivptr agree at the store)')
         for _p in 'sdcz':
             _pivot.pivrow_in_sync_rule(chk, 'C03.pivrow', prog, _p, cfgname)
+        from ..rules import lints as _lints
+        _lints.unused_induction_rule(chk, 'C03.loopvar', prog, cfgname)
         chk.clause('C03.fixup', 'fixupL relabels the row subscripts of L for every matrix that has a column')
         misc.fixup_unconditional_rule(chk, 'C03.fixup', prog, cfgname)
         chk.clause('C03.droprow', 'ilu_?drop_row moves values and subscripts of a row together')
